@@ -22,7 +22,7 @@ TRUSTED = ["Coq kernel 8.16.1", "Coq extraction + OCaml 4.13.1", "runner/Packet/
            "go1.26 toolchain, Go crypto library (real validators in the tamper sweep)", "translators/packet/signers.py"]
 
 # oracle kinds per property
-C03_KINDS = ("roundtrip-", "tlv-exact", "name-bytes-roundtrip", "comp-bytes-roundtrip", "same-name-in-packet", "same-hint-entries", "same-finalname-reuse")
+C03_KINDS = ("roundtrip-", "tlv-exact", "name-bytes-roundtrip", "comp-bytes-roundtrip", "same-name-in-packet", "same-hint-entries", "same-finalname-reuse", "same-api-", "same-reuse-")
 C12_KINDS = ("sigcovered-", "same-handed-to-signer", "same-reuse-", "same-seq-", "same-engine-", "params-digest", "validate-", "tamper-")
 C03_DIV = ("MKDATA", "MKINT", "RD-", "WALK", "NAMEB", "COMPB")
 C12_DIV = ("VALID-", "RD-", "MKDATA", "MKINT")
